@@ -101,6 +101,11 @@ pub struct Session {
     pub seq: u64,
     pub ops: Vec<Op>,
     file_no: u64,
+    /// A second, unrelated graph of the same type alive on the same thread: between the calls
+    /// of the history it forms a group, fills, reads and collects it, over rotating ids that overlap
+    /// the ids of the graph under observation. Nothing it does may show in the observed graph
+    /// (statics, thread-locals, caches keyed by id would).
+    bystander: Option<Box<dyn Graph>>,
 }
 
 impl Session {
@@ -116,6 +121,44 @@ impl Session {
             seq: 0,
             ops: vec![],
             file_no: 0,
+            bystander: if cap >= 2 { guarded(|| new_graph(n, cap)).ok() } else { None },
+        }
+    }
+
+    /// One step of the bystander's fixed cycle (a pure function of the call counter, so replays repeat it).
+    fn bystander_step(&mut self) {
+        let (k, cap) = (self.seq as usize, self.cap);
+        let Some(b) = &mut self.bystander else { return };
+        let c = k / 8;
+        let (x, y) = ((2 * c) % cap, (2 * c + 1) % cap);
+        if x == y {
+            return;
+        }
+        let l = if c % 2 == 0 { Label::Alpha(c % 3) } else { Label::Greek('ρ') };
+        let r = guarded(|| match k % 8 {
+            0 => b.add(x),
+            1 => b.add(y),
+            2 => b.bind(x, y, l),
+            3 => b.put(x, &sodg::Hex::from_vec(vec![(c % 251) as u8 ^ 0x5A; 1 + c % 13])),
+            4 => b.put(y, &sodg::Hex::from_vec(vec![(c % 241) as u8 ^ 0xA5; c % 11])),
+            5 => {
+                // first read and a re-read while the group is still alive, and the edge queries
+                let _ = b.data(x);
+                let _ = b.data(x);
+                let _ = b.kid(x, l);
+                let _ = b.kids(x);
+            }
+            6 => {
+                let _ = b.v_print(x);
+                let _ = b.inspect(x);
+            }
+            _ => {
+                let _ = b.data(y);
+            }
+        });
+        if r.is_err() {
+            // not this graph's business; stop disturbing
+            self.bystander = None;
         }
     }
 
@@ -135,6 +178,7 @@ impl Session {
     /// Execute one op on the real graph and on the model.
     pub fn step(&mut self, op: &Op) -> Outcome {
         self.enter(op);
+        self.bystander_step();
         self.ops.push(op.clone());
         self.calls += 1;
         let keys_before = self.g.keys();
@@ -242,8 +286,20 @@ impl Session {
                 let path = self.tmp_file("sl");
                 let g = &self.g;
                 let n = self.n;
+                // interaction: one reload in three is preceded by a load() of a truncated copy of the
+                // image (rejected; C09 judges that). Nothing of it may be left for the real load().
+                let interfere = self.ops.len() % 3 == 0;
                 let r = guarded(|| -> Result<Box<dyn Graph>, String> {
                     g.save(&path)?;
+                    if interfere {
+                        if let Ok(b) = std::fs::read(&path) {
+                            let cut = path.with_extension("cut");
+                            if std::fs::write(&cut, &b[..b.len() / 2]).is_ok() {
+                                let _ = guarded(|| load_graph(n, &cut).map(|l| l.len()));
+                            }
+                            let _ = std::fs::remove_file(&cut);
+                        }
+                    }
                     load_graph(n, &path)
                 });
                 let _ = std::fs::remove_file(&path);
